@@ -8,6 +8,11 @@ func isBareChar(r rune) bool {
 }
 
 func (tree *ParserT) parseBareword() []rune {
+	if tree.charPos >= len(tree.expression) {
+		// nothing left to read (eg a cast operator, `:`, at the end of the code)
+		return nil
+	}
+
 	i := tree.charPos + 1
 
 	for ; i < len(tree.expression); i++ {
